@@ -694,13 +694,63 @@ static void p2_run(uint64_t idx, vh_rng_t * rng) {
     vh_buf_free(&b);
 }
 
+/* ---- phase 3: a command with TWO list parameters: the handler fetches both, then decodes them entry by entry in lockstep (a routing
+ * command "connect (@sources),(@destinations)"). Each list must decode exactly as it does alone. --------------------------------------- */
+#define P3E 6
+typedef struct { int res; int is_range; int32_t f[4], t[4]; size_t dims; double df, dt; } p3obs_t;
+static struct { int chan, mode_double; p3obs_t o[2][P3E]; int called; } P3;
+static scpi_result_t p3_handler(scpi_t * c) {
+    scpi_parameter_t pa[2]; int i, k;
+    P3.called++;
+    if (!SCPI_Parameter(c, &pa[0], TRUE) || !SCPI_Parameter(c, &pa[1], TRUE)) return SCPI_RES_ERR;
+    for (i = 0; i < P3E; i++) for (k = 0; k < 2; k++) {
+        p3obs_t * o = &P3.o[k][i]; scpi_bool_t rg = FALSE;
+        memset(o, 0, sizeof *o);
+        if (P3.chan) o->res = (int) SCPI_ExprChannelListEntry(c, &pa[k], i, &rg, o->f, o->t, 4, &o->dims);
+        else if (P3.mode_double) o->res = (int) SCPI_ExprNumericListEntryDouble(c, &pa[k], i, &rg, &o->df, &o->dt);
+        else o->res = (int) SCPI_ExprNumericListEntryInt(c, &pa[k], i, &rg, &o->f[0], &o->t[0]);
+        o->is_range = rg ? 1 : 0;
+    }
+    return SCPI_RES_OK;
+}
+static const scpi_command_t p3_cmds[] = { { "ROUTe:PATH", p3_handler, 0 }, SCPI_CMD_LIST_END };
+static uint64_t p3_count(int thorough) { return vh_scaled(thorough ? 200000 : 20000); }
+static void p3_run(uint64_t idx, vh_rng_t * rng) {
+    vh_buf_t a = { 0 }, b = { 0 }, m = { 0 }; rlist_t rl[2]; vh_ctx_t * v; int k, i;
+    P3.chan = (int) (idx & 1); P3.mode_double = (int) ((idx >> 1) & 1); P3.called = 0;
+    if (P3.chan) { gen_channel_list(rng, &a); gen_channel_list(rng, &b); } else { gen_numeric_list(rng, &a); gen_numeric_list(rng, &b); }
+    ref_list(a.p, (int) a.len, P3.chan, &rl[0]); ref_list(b.p, (int) b.len, P3.chan, &rl[1]);
+    vh_buf_adds(&m, "ROUT:PATH ("); vh_buf_add(&m, a.p, a.len); vh_buf_adds(&m, "),("); vh_buf_add(&m, b.p, b.len); vh_buf_adds(&m, ")\n");
+    vh_case_desc("two %s lists in one command, decoded in lockstep: %s", P3.chan ? "channel" : "numeric", vh_esc(m.p, m.len > 200 ? 200 : m.len));
+    v = vh_ctx_new(p3_cmds, m.len + 8, 8, 256); v->log_enabled = 0;
+    vh_input(v, m.p, m.len);
+    vh_eval(2 * P3E);
+    if (P3.called != 1) vh_violation("C19:two-lists-harness", "handler called %d times for %s", P3.called, vh_esc(m.p, m.len));
+    else for (k = 0; k < 2; k++) for (i = 0; i < P3E; i++) {
+        const p3obs_t * o = &P3.o[k][i]; const rent_t * e = i < rl[k].npieces && i < MAXE ? &rl[k].e[i] : NULL; const char * body = k ? b.p : a.p; int bad = 0, d;
+        if (rl[k].cls != R_STRICT) continue; /* generated lists are well formed; lenient ones (white space) are not asserted here */
+        if (e) {
+            if (o->res != SCPI_EXPR_OK || o->is_range != e->is_range) bad = 1;
+            else if (P3.chan) { if (o->dims != (size_t) e->ndim) bad = 1; for (d = 0; !bad && d < e->ndim && d < 4; d++) { if (e->from[d].int_ok && o->f[d] != e->from[d].ival) bad = 1; if (e->is_range && e->to[d].int_ok && o->t[d] != e->to[d].ival) bad = 1; } }
+            else if (P3.mode_double) { if (!dbl_matches_literal(o->df, body + e->from[0].off, e->from[0].len) || (e->is_range && !dbl_matches_literal(o->dt, body + e->to[0].off, e->to[0].len))) bad = 1; }
+            else { if ((e->from[0].int_ok && o->f[0] != e->from[0].ival) || (e->is_range && e->to[0].int_ok && o->t[0] != e->to[0].ival)) bad = 1; }
+        } else if (i >= rl[k].npieces && o->res != SCPI_EXPR_NO_MORE) bad = 1;
+        if (bad) { vh_violation("C19:list-decoded-differently-next-to-another-list", "command %s: list %d entry %d -> result %d isRange %d first value %ld / %g (each list alone decodes as written)", vh_esc(m.p, m.len), k + 1, i, o->res, o->is_range, (long) o->f[0], o->df); break; }
+        vh_count("twolists.entries_compared", 1);
+    }
+    vh_distinct(vh_hash(m.p, m.len, 19));
+    vh_ctx_free(v); vh_buf_free(&a); vh_buf_free(&b); vh_buf_free(&m);
+    flush_counters();
+}
+
 int main(int argc, char ** argv) {
     static const vh_phase_t phases[] = {
         { "enumerate", p0_count, p0_run },
         { "grammar", p1_count, p1_run },
         { "mutate", p2_count, p2_run },
+        { "two lists in one command", p3_count, p3_run },
     };
-    vh_require("generated.entries_spelled_with_40_to_320_characters");
+    vh_require("generated.entries_spelled_with_40_to_320_characters"); vh_require("twolists.entries_compared");
     vh_require("numeric.wellformed.ok");
     vh_require("numeric.wellformed.ok_range");
     vh_require("numeric.wellformed.no_more_nothing_queued");
@@ -717,5 +767,5 @@ int main(int argc, char ** argv) {
     vh_require("channel.malformed.error_with_170");
     vh_require("channel.malformed.ok_for_wellformed_prefix");
     vh_require("channel.no_at.error_with_170");
-    return vh_main(argc, argv, "C19", phases, 3);
+    return vh_main(argc, argv, "C19", phases, 4);
 }
